@@ -283,6 +283,18 @@ func oracleC05(op string, args []string) string {
 			return "FAIL known type with its body present: " + err.Error()
 		}
 		return "pass"
+	case "dec2":
+		// a Message that is decoded into twice (same family): exactly the body named by the second input, as from a fresh Message
+		got := opDec2(args)
+		if got == "bad-op" {
+			return skip
+		}
+		b, _ := unhex(args[2])
+		_, fresh := decodeEntry(args[0], &b)
+		if got != fresh {
+			return "FAIL decoding into a recycled Message differs from a fresh decode: " + got + " (fresh: " + fresh + ")"
+		}
+		return "pass"
 	case "dec":
 		if len(args) != 2 {
 			return skip
